@@ -16,8 +16,9 @@ def jobs(tier):
     for cls, cn in ((0, "digits"), (1, "letters"), (2, "lead_letter"), (3, "lead_upper")):
         L("hex0x." + cn, {"NOTATION": 1, "CLASS": cls}); L("hexh." + cn, {"NOTATION": 2, "CLASS": cls})
     L("hex_sep", {"NOTATION": 8, "CLASS": 2})
-    for nd in (1, 5, 10, 18): L("dec%d" % nd, {"NOTATION": 3, "NDIG": nd})
+    for nd in (1, 3, 5, 10, 15, 18): L("dec%d" % nd, {"NOTATION": 3, "NDIG": nd})
     L("bin0b.8", {"NOTATION": 4, "NBITS": 8, "SYMBITS": 7}); L("bin0b.31", {"NOTATION": 4, "NBITS": 31, "SYMBITS": 6}); L("binb.16", {"NOTATION": 5, "NBITS": 16, "SYMBITS": 6})
+    L("bin0b.16", {"NOTATION": 4, "NBITS": 16, "SYMBITS": 6}); L("binb.8", {"NOTATION": 5, "NBITS": 8, "SYMBITS": 7}); L("oct11", {"NOTATION": 6, "NDIG": 11}); L("oct16", {"NOTATION": 6, "NDIG": 16})
     L("oct5", {"NOTATION": 6, "NDIG": 5}); L("oct21", {"NOTATION": 6, "NDIG": 21}); L("char", {"NOTATION": 7})
     return js
 
